@@ -518,6 +518,112 @@ pub fn run_conc_case(rng: &mut Rng, idx: usize, thorough: bool) -> ConcOut {
     out
 }
 
+/// A writer whose blocking commit is queued BEHIND a live session while that session finishes a
+/// large batch: the session's change set (root, witness) must be computed on the state the session
+/// began on - the root must be the one a sequential reference store reports for "base, then the
+/// session's batch", every witnessed path proof must verify against the session's `prev_root` - and
+/// the writer's commit must not complete before the session's `finish` has returned.
+pub fn run_blocked_writer_case(rng: &mut Rng, idx: usize) -> ConcOut {
+    let mut out = ConcOut { violations: vec![], commits: 0, sessions: 0, reads: 0, proofs: 0, stale: 0, deferred: 0, rollbacks: 0, threads: 2, overlapping_reader_pairs: 0 };
+    let mut cfg = crate::gen::gen_cfg(rng);
+    cfg.ht = 64000;
+    cfg.rollback = false;
+    cfg.cc = *rng.pick(&[1usize, 2, 4]);
+    let dir = fresh_dir(&format!("concbw-{}", idx));
+    let refdir = fresh_dir(&format!("concbw-ref-{}", idx));
+    let db = Arc::new(Nomt::<H>::open(cfg.options(&dir)).expect("open"));
+    let refdb = Nomt::<H>::open(cfg.options(&refdir)).expect("open reference");
+    let n = rng.range(12_000, 20_000) as usize;
+    let mut keys: Vec<Key> = (0..n).map(|_| rng.key()).collect();
+    keys.sort();
+    keys.dedup();
+    let base: Vec<(Key, KeyReadWrite)> = keys.iter().enumerate().map(|(i, k)| (*k, KeyReadWrite::Write(Some(val_bytes(i as u64 + 1))))).collect();
+    for d in [&*db, &refdb] {
+        let s = d.begin_session(SessionParams::default());
+        s.finish(base.clone()).unwrap().commit(d).unwrap();
+    }
+    out.commits += 1;
+    let t0 = Instant::now();
+    for round in 0..2u64 {
+        // the writer's change set: one key
+        let kx = keys[rng.below(keys.len() as u64) as usize];
+        let ws = db.begin_session(SessionParams::default());
+        let wfin = ws.finish(vec![(kx, KeyReadWrite::Write(Some(val_bytes(1_000_000 + round))))]).unwrap();
+        // the reader-writer session, witness on
+        let sess = db.begin_session(SessionParams::default().witness_mode(nomt::WitnessMode::read_write()));
+        let prev_root = sess.prev_root().into_inner();
+        let seen = sess.read(kx).unwrap();
+        out.sessions += 1;
+        let done_at = Arc::new(Mutex::new(None::<u128>));
+        let (db2, done2) = (db.clone(), done_at.clone());
+        let w = std::thread::spawn(move || {
+            let r = wfin.commit(&db2);
+            *done2.lock().unwrap() = Some(t0.elapsed().as_micros());
+            r.is_ok()
+        });
+        std::thread::sleep(Duration::from_millis(150));
+        if done_at.lock().unwrap().is_some() {
+            out.violations.push(("c15-writer-not-blocked".into(), format!("round {}: a blocking commit completed while a session begun before it was still alive (150 ms after the call)", round)));
+        }
+        // a large batch over keys other than the writer's
+        let mut batch: Vec<(Key, KeyReadWrite)> = Vec::new();
+        for (i, k) in keys.iter().enumerate() {
+            if *k != kx && rng.chance(1, 4) {
+                batch.push((*k, KeyReadWrite::Write(Some(val_bytes(2_000_000 + round * 100_000 + i as u64)))));
+            }
+        }
+        let mut fin = match sess.finish(batch.clone()) {
+            Ok(f) => f,
+            Err(e) => {
+                out.violations.push(("harness".into(), format!("finish failed: {:#}", e)));
+                let _ = w.join();
+                break;
+            }
+        };
+        let t_fin_end = t0.elapsed().as_micros();
+        let wok = w.join().unwrap();
+        let t_done = done_at.lock().unwrap().unwrap_or(0);
+        if t_done < t_fin_end {
+            // a statistic only (the two clocks are read by different threads)
+            out.overlapping_reader_pairs += 1;
+        }
+        // reference: the same batch on the same base, sequentially
+        let rs = refdb.begin_session(SessionParams::default());
+        let rfin = rs.finish(batch.clone()).unwrap();
+        let ref_root = rfin.root().into_inner();
+        let got_root = fin.root().into_inner();
+        if got_root != ref_root {
+            out.violations.push(("c15-session-root-not-of-its-base".into(), format!("round {}: a session finished while a blocking commit was queued behind it reports root {} for its change set; its base state plus its {} writes have root {} (reference store); the value it had read for the writer's key: {:?}", round, hex(&got_root), batch.len(), hex(&ref_root), seen.as_ref().map(|v| v.len()))));
+        }
+        if let Some(wit) = fin.take_witness() {
+            let mut bad = 0usize;
+            for p in &wit.path_proofs {
+                out.proofs += 1;
+                if p.inner.verify::<H>(p.path.path(), prev_root).is_err() {
+                    bad += 1;
+                }
+            }
+            if bad > 0 {
+                out.violations.push(("c15-witness-not-of-its-base".into(), format!("round {}: {} of {} witnessed path proofs do not verify against the root the session began on", round, bad, wit.path_proofs.len())));
+            }
+        }
+        drop(rfin);
+        if !wok {
+            out.violations.push(("c15-blocked-writer-failed".into(), format!("round {}: the queued blocking commit failed", round)));
+        }
+        out.commits += 1;
+        // keep the reference store in step with the writer's commit
+        let rs = refdb.begin_session(SessionParams::default());
+        rs.finish(vec![(kx, KeyReadWrite::Write(Some(val_bytes(1_000_000 + round))))]).unwrap().commit(&refdb).unwrap();
+        drop(fin);
+    }
+    drop(db);
+    drop(refdb);
+    let _ = std::fs::remove_dir_all(&dir);
+    let _ = std::fs::remove_dir_all(&refdir);
+    out
+}
+
 pub fn cmd_conc(kv: &HashMap<String, String>) -> i32 {
     let prop = kv.get("prop").cloned().unwrap_or_else(|| "C15".into());
     let thorough = kv.get("tier").map(|t| t == "thorough").unwrap_or(false);
@@ -539,7 +645,9 @@ pub fn cmd_conc(kv: &HashMap<String, String>) -> i32 {
         hs.push(std::thread::spawn(move || loop {
             let item = q.lock().unwrap().pop();
             let Some((i, mut r)) = item else { break };
-            let o = std::panic::catch_unwind(std::panic::AssertUnwindSafe(|| run_conc_case(&mut r, i, thorough)));
+            // the first case(s) of a run: the deterministic blocked-writer programme
+            let bw = i < if thorough { 4 } else { 1 };
+            let o = std::panic::catch_unwind(std::panic::AssertUnwindSafe(|| if bw { run_blocked_writer_case(&mut r, i) } else { run_conc_case(&mut r, i, thorough) }));
             res.lock().unwrap().push((i, o));
         }));
     }
